@@ -136,7 +136,12 @@ def run(ctx):
         # oracle 1: round trip on the real code, with a random tail
         tail = rng.randbytes(rng.randrange(0, 6))
         bad_split = []
-        got, so_far, rem = real_decode(Message, kinds, data + tail, bad_split)
+        try:
+            got, so_far, rem = real_decode(Message, kinds, data + tail, bad_split)
+        except Exception as e:  # reading back what was just written must never raise
+            ctx.fail("roundtrip-raises:" + type(e).__name__, {"fields": [tok(f) for f in fields], "tail": tail.hex()},
+                     "reading back %s raised %r" % (data.hex()[:120], e))
+            continue
         want = [(k, v) for k, v in fields]
         if got != want or rem != tail or so_far != data:
             bad = next((i for i, (g, w) in enumerate(zip(got, want)) if g != w), None)
